@@ -390,10 +390,20 @@ def _file_site_key_consistent(p, pr, f, call):
     # receiver: lookup[key] directly or a variable assigned from lookup[key] in the loop body
     r = recv
     if isinstance(r, ast.Name):
-        binds = [n for n in ast.walk(lp) if isinstance(n, ast.Assign) and len(n.targets) == 1 and norm(n.targets[0]) == r.id and isinstance(n.value, ast.Subscript)]
-        if len(binds) != 1:
+        def _sub(v_):
+            # lookup[key], or `None if <no directory hashes> else lookup[key]` (the call then sits under a test that the variable is not None)
+            if isinstance(v_, ast.IfExp):
+                alts_ = [b_ for b_ in (v_.body, v_.orelse) if not (isinstance(b_, ast.Constant) and b_.value is None)]
+                if len(alts_) == 1:
+                    return _sub(alts_[0])
+            return v_ if isinstance(v_, ast.Subscript) else None
+
+        all_binds = [n for n in ast.walk(lp) if isinstance(n, (ast.Assign, ast.AugAssign, ast.AnnAssign)) and any(isinstance(t_, ast.Name) and t_.id == r.id for t_ in (n.targets if isinstance(n, ast.Assign) else [n.target]))]
+        binds = [n for n in all_binds if isinstance(n, ast.Assign) and len(n.targets) == 1 and _sub(n.value) is not None]
+        others_ = [n for n in all_binds if n not in binds and not (isinstance(n, ast.Assign) and isinstance(n.value, ast.Constant) and n.value.value is None)]
+        if len(binds) != 1 or others_:
             return False, f"receiver `{r.id}` is not bound to lookup[{key}] exactly once in the loop"
-        r = binds[0].value
+        r = _sub(binds[0].value)
     if not (isinstance(r, ast.Subscript) and norm(r.slice) == key):
         return False, f"receiver is `{norm(recv)}`, not the context stored under `{key}`"
     # value: v itself, an attribute of v, or a variable assigned from that
